@@ -270,3 +270,20 @@ def run(ck, prog):
     ck.floor("E1-sibling", 2)
     ck.floor("E2b-guarded", 6)
     ck.floor("E2a-label-decode", 1)
+
+
+def scale_free(ck, prog):
+    """'fitting ... is unchanged when features are multiplied by a positive power of two': no feature/target-derived
+    quantity is compared with a non-zero absolute constant anywhere in growing or routing (E4)"""
+    from props.C01 import run_e4
+    scope = r"^tree::decision_tree_(regressor|classifier)::DecisionTree(Regressor|Classifier)::<T>::(find_best_split|find_best_cutoff|split|predict_for_row|fit_weak_learner)$"
+    n, _ = run_e4(ck, prog, scope, ["find_best_split", "split", "predict_for_row"], floor=6)
+    ck.extra["t_comparisons_classified"] = n
+
+
+_run_c05 = run
+
+
+def run(ck, prog):
+    _run_c05(ck, prog)
+    scale_free(ck, prog)
